@@ -43,11 +43,11 @@ def run(res, b, tier, seed):
     calib_bad = []
     for c in ccases:
         if c.out.get("BATCH", ("", ""))[0] != "OK":
-            calib_bad.append((c.id, "not transpiled"))
+            calib_bad.append((c.id, "not transpiled", c))
             continue
         r = _sim(bytes.fromhex(c.out["BATCH"][1]).decode("utf-8", "replace"))
         if r[0] != "ok" or r[1].strip() != c.meta["exp"] or ((r[2] != 0) != c.meta["err"]):
-            calib_bad.append((c.id, str(r)[:200]))
+            calib_bad.append((c.id, str(r)[:200], c))
     # generated programs with a 32-bit reference result (batch by batch: bounded memory)
     cfgs = [gen_prog.Cfg(big_ints=False), gen_prog.Cfg(funcs=True, big_ints=False), gen_prog.Cfg(funcs=True, slices=True, strops=True, big_ints=False),
             gen_prog.Cfg(funcs=True, slices=True, strops=True, effects=True, big_ints=False, max_nest=4)]
@@ -120,8 +120,13 @@ def run(res, b, tier, seed):
     res.assumptions += ["no cmd.exe exists in the sandbox: 'cmd.exe's rules' are those of lib/cmdsim.py (DESIGN.md appendix F), calibrated on the suite's expectations",
                         "32-bit reference semantics = the Python reference interpreter with BITS=32"]
     if calib_bad:
-        res.violation("validation-tie", dict(what="the cmd model no longer reproduces the expected output of the suite's test bodies on the implementation's Batch script",
-                                             cases=calib_bad[:5]), no_input=True)
+        # a test body of the repository's own suite, with the output that suite expects: a concrete failing input
+        cid, got, cc = calib_bad[0]
+        res.violation("oracle", dict(what="a program of the repository's test suite no longer gives the output the suite expects when its Batch script "
+                                          "is run under the cmd model (which is unchanged and reproduces all of these expectations on the unchanged tree)",
+                                     program=cc.meta["src"], expected_stdout=cc.meta["exp"], expected_error=cc.meta["err"], got=got,
+                                     script=bytes.fromhex(cc.out["BATCH"][1]).decode("utf-8", "replace") if cc.out.get("BATCH", ("", ""))[0] == "OK" else None,
+                                     other_cases=[(a, g) for a, g, _ in calib_bad[1:5]]))
     real = []
     for c, what, r in fails:
         if c.meta["panic_in_func"] and res.known_finding("panic-in-function-returns-to-caller", what):
